@@ -203,6 +203,21 @@ class Ctx:
             self.undecided.append({"obligation": ob.name, "reason": getattr(ob, "reason", "unknown")})
         return ob.status
 
+    # ------------------------------------------------------------------ syntactic frame audits
+    def frame_audit(self, name, offenders, what, n=1):
+        """A syntactic audit of the source backs a frame / ownership assumption of the proofs (nothing else writes X;
+        every Y goes through Z).  When it finds an offender the inductive argument no longer applies - which says the PROOF
+        is lost, not that the property is broken (the write may have moved into a helper): reported as UNDECIDED, and the
+        bounded families, which run the real code, decide."""
+        self.obligations += n
+        if offenders:
+            self.undecided.append({"obligation": name, "reason": f"{what}: {list(offenders)[:3]}"})
+            self.functions.append({"function": name, "obligations": n, "discharged": 0, "status": "undecided",
+                                   "offenders": [list(o) if isinstance(o, tuple) else o for o in list(offenders)[:5]]})
+        else:
+            self.discharged += n
+            self.by_backend["ast-audit"] = self.by_backend.get("ast-audit", 0) + n
+
     # ------------------------------------------------------------------ bounded part
     def run_bounded(self, name, cases, check, rule, bound, key_of=None, nontrivial=None, max_report=5):
         """cases: iterable of case objects; check(case) -> None | (key, what, witness-dict).
